@@ -1851,6 +1851,37 @@ example : ∃ s', migrate cfg exLater 1 11 true = .ok s' ∧
     balOf (run cfg s' [.block 300, .block 1]).bal 1 0 = 0 :=
   ⟨_, rfl, by decide, by decide, by decide, by decide⟩
 
+/-! ## a migration delivered as a transaction of a block -/
+
+/-- **tx_block_is_a_history**: the block that carries a migration as a signed transaction (what the driver runs for a
+`txblock` line: `ValidateBasic`, ante handler with fee payment, message server as regenerated program, end blockers) ends in
+the state of the op list `txOps` run by `run` — fee payment, migration, block, or the block alone when the transaction is
+refused before the fee is taken — so every theorem about histories (`run`) covers transactions delivered through
+`FinalizeBlock` -/
+theorem tx_block_is_a_history (s : State) (dt fee : Nat) (txSigner frm to : Addr) (sigOk : Bool) :
+    (txBlock cfg Gen.C14.handlerOrder Gen.C14.migrateHandlers s dt fee txSigner frm to sigOk).1 =
+      run cfg s (txOps cfg s dt fee txSigner frm to sigOk).1 := by
+  unfold txBlock run
+  simp only [stepP_eq_step]
+
+/-- a transaction not signed by the source's account key, or one whose source cannot pay the fee, moves nothing: the block
+is the empty block -/
+theorem tx_block_needs_source_signature (s : State) (dt fee : Nat) (txSigner frm to : Addr) (sigOk : Bool)
+    (h : txSigner ≠ frm) : (txOps cfg s dt fee txSigner frm to sigOk).1 = [.block dt] := by
+  unfold txOps
+  split
+  · rfl
+  split
+  · rfl
+  have : (txSigner != frm) = true := by simpa using h
+  simp [this]
+
+/-- non-vacuity: in `exState` the migration of 1 to 11 delivered as a transaction with fee 5 is accepted, the fee is paid by
+the source before its balances move, and a transaction signed by account 2 is refused by the ante handler -/
+example : (txOps cfg exState 1 5 1 1 11 true).2 = "ok" ∧
+    (txOps cfg exState 1 5 1 1 11 true).1 = [.send 1 feeCollector 0 5, .migrate 1 11 true, .block 1] ∧
+    (txOps cfg exState 1 5 2 1 11 true).2 = "err:ante" := by decide
+
 /-! ## genesis export / import: the one-shot records survive a restart -/
 
 /-- every operation keeps the pairing of the migration records (only an accepted migration writes them) -/
